@@ -162,3 +162,11 @@ Proof.
   cbv zeta. split; [split; [reflexivity|split; repeat constructor; lia]|].
   vm_compute. repeat split.
 Qed.
+
+(* a negative step on any axis is refused (utils.go SliceDetails since the repair ee30907) *)
+Theorem C02_negative_step_refused : forall a len sl j sz st en sp,
+  length (str a) = length (shp a) ->
+  nth_error (shp a) j = Some sz -> nth_error sl j = Some (Some (st, en, sp)) -> sp < 0 ->
+  ap_S a len sl = Err.
+Proof. exact ap_S_negative_step_refused. Qed.
+Print Assumptions C02_negative_step_refused.
